@@ -7,6 +7,7 @@ import QR.Proofs.SourceTieA3
 import QR.Proofs.SourceTieA4
 import QR.Proofs.SourceTieA5b
 import QR.Proofs.SourceTieD6a
+import QR.Proofs.CapstoneE2C02
 /-
 C02 - every error-correction block is a codeword of the ISO Reed-Solomon code; block structure = ISO Table 9.
 -/
@@ -279,6 +280,101 @@ theorem C02_source_poly_len_iter_src (num : List Nat) : lo_poly_len num = (num.l
   QR.SourceTieD6.poly_len_iter_src num
 
 end SourceTieD6
+
+/-! ### Capstones: (ii) composed with (i) - the TRANSLATED SOURCE satisfies the Spec-level statements.
+    The `…Src` functions (`QR/Proofs/CapstoneE2.lean`) are the right-hand sides of the bridge theorems above: the Python function
+    assembled from the `QR.Gen.Code` fragments, with each callee that is not translated in place as an explicit parameter. -/
+section Capstone
+open QR.Model QR.Gen.Code QR.SourceTieA QR.CapstoneE2
+
+theorem C02_source_ecOfBlockSrc_eq (dc : List Nat) (ecCount : Nat) :
+    ecOfBlockSrc rsPolyFor polyMk polyMod dc ecCount = ecOfBlock dc ecCount :=
+  (C02_source_ecOfBlock_src dc ecCount).symm
+
+theorem C02_source_createBytesSrc_eq (buf : List Nat) (blocks : List (Nat × Nat)) :
+    createBytesSrc (ecOfBlockSrc rsPolyFor polyMk polyMod) buf blocks = createBytes buf blocks := by
+  have e : ecOfBlockSrc rsPolyFor polyMk polyMod = ecOfBlock := by
+    funext dc ecCount; exact C02_source_ecOfBlockSrc_eq dc ecCount
+  rw [C02_source_createBytes_src, e]
+  unfold createBytesSrc
+  rw [cbLoopP_ecOfBlock]
+
+theorem C02_source_rsBlocksSrc_eq (version level : Nat) (hv : 1 ≤ version) : rsBlocksSrc version level = rsBlocks version level :=
+  (C02_source_rsBlocks_src version level hv).symm
+
+/-- **capstone, base.py:rs_blocks → util.py:create_bytes (main loop, `current_ec` computation, both interleaving loops)**:
+    for all 160 (version, level) pairs and every content of the data codewords, the translated `rs_blocks` (dictionary
+    lookup, row index, row loop) followed by the translated `create_bytes` succeeds, yields exactly the ISO total number of
+    codewords, and the reader's de-interleaving (ISO Table 9) returns blocks whose data parts concatenate to the input and
+    each of which is a codeword of the ISO Reed-Solomon code (all syndromes vanish).  Partly translated chain: inside
+    `current_ec` the callees `Polynomial.__init__` (`Model.polyMk`), `Polynomial.__mod__` (`Model.polyMod`) and the generator
+    lookup / fallback loop (`Model.rsPolyFor`) are parameters instantiated by the Model functions; they are tied to the source
+    separately by `C02_source_polyMk_src`, `C02_source_polyMod_src` (one unfolding of the recursion),
+    `C02_source_rsPolyFallback_src`.  From `C02_source_rsBlocks_src`, `C02_source_createBytes_src`,
+    `C02_source_ecOfBlock_src`, `C02_table9` and `C02_blocks`. -/
+theorem C02_source_capstone_blocks (v : Nat) (hv : v < 40) (l : Spec.Level) (buf : List Nat)
+    (hlen : buf.length = Spec.dataCodewords (v + 1) l) (hbytes : ∀ x ∈ buf, x < 256) :
+    ∃ cw, (rsBlocksSrc (v + 1) l.indicator >>= fun blocks =>
+            createBytesSrc (ecOfBlockSrc rsPolyFor polyMk polyMod) buf blocks) = .ok cw ∧
+      cw.length = Spec.totalCodewords (v + 1) ∧
+      (Spec.blocksOf (v + 1) l cw).flatMap (·.data) = buf ∧
+      ∀ b ∈ Spec.blocksOf (v + 1) l cw, Spec.isCodeword (Spec.eccLen (v + 1) l) (b.data ++ b.ec) = true := by
+  obtain ⟨cw, h1, h2, h3, h4⟩ := C02_blocks v hv l buf hlen hbytes
+  refine ⟨cw, ?_, h2, h3, h4⟩
+  rw [C02_source_rsBlocksSrc_eq (v + 1) l.indicator (by omega),
+    C02_table9 v hv l (by cases l <;> simp [allLevels])]
+  show createBytesSrc (ecOfBlockSrc rsPolyFor polyMk polyMod) buf (Spec.isoBlocks (v + 1) l) = .ok cw
+  rw [C02_source_createBytesSrc_eq]
+  exact h1
+
+/-- **capstone, util.py:create_bytes, the `current_ec` computation of one block** (translated: the shift
+    `len(rsPoly) - 1`, `mod_offset`, the range, `modIndex`, the guard `modIndex >= 0` and the else-value; parameters
+    instantiated by Model functions: `Polynomial.__init__`, `Polynomial.__mod__`, generator lookup - see above): for every
+    block shape of ISO Table 9 and EVERY non-empty list of data bytes the EC codewords are computed, have the right length,
+    are bytes, and data ++ ec is a codeword of the ISO Reed-Solomon code; from `C02_source_ecOfBlock_src` and `C02_codeword`. -/
+theorem C02_source_capstone_codeword (e : Nat) (he : e ∈ eccLengths) (dc : List Nat) (hne : dc ≠ []) (hb : ∀ c ∈ dc, c < 256) :
+    ∃ ec, ecOfBlockSrc rsPolyFor polyMk polyMod dc e = .ok ec ∧ ec.length = e ∧ (∀ c ∈ ec, c < 256) ∧
+      Spec.isCodeword e (dc ++ ec) = true := by
+  rw [C02_source_ecOfBlockSrc_eq]
+  exact C02_codeword e he dc hne hb
+
+/-- **capstone, base.py:rs_blocks** (translated whole: `RS_BLOCK_OFFSET[error_correction]`, the row index
+    `(version - 1) * 4 + offset`, the loop over `range(0, len(rs_block), 3)` with slice, unpacking and `RSBlock` argument
+    order; tables regenerated from the source): the result is ISO Table 9 for all 160 pairs; from `C02_source_rsBlocks_src`
+    and `C02_table9`. -/
+theorem C02_source_capstone_table9 (v : Nat) (hv : v < 40) (l : Spec.Level) (hl : l ∈ allLevels) :
+    rsBlocksSrc (v + 1) l.indicator = .ok (Spec.isoBlocks (v + 1) l) := by
+  rw [C02_source_rsBlocksSrc_eq (v + 1) l.indicator (by omega)]
+  exact C02_table9 v hv l hl
+
+/-- **capstone, util.py:create_bytes (block structure)**: the translated main loop and interleaving loops, for any block
+    list given by ISO Table 9: the reader's view of the codeword sequence is the consecutive data slices each followed by
+    the EC codewords the (parameter) per-block computation returns for it; from `C02_source_createBytes_src` and
+    `C02_block_structure` (hypothesis `hec` of the ingredient kept: the per-block computation is total with the right length) -/
+theorem C02_source_capstone_block_structure (v : Nat) (hv : v < 40) (l : Spec.Level) (buf : List Nat)
+    (hlen : buf.length = Spec.dataCodewords (v + 1) l) (hbytes : ∀ x ∈ buf, x < 256)
+    (hec : ∀ (dc : List Nat) (e : Nat), dc ≠ [] → (∀ x ∈ dc, x < 256) →
+      e ∈ [7, 10, 13, 15, 16, 17, 18, 20, 22, 24, 26, 28, 30] →
+      ∃ ec, ecOfBlockSrc rsPolyFor polyMk polyMod dc e = .ok ec ∧ ec.length = e) :
+    ∃ (bs : List (List Nat × List Nat)) (cw : List Nat),
+      createBytesSrc (ecOfBlockSrc rsPolyFor polyMk polyMod) buf (Spec.isoBlocks (v + 1) l) = .ok cw ∧
+      cw.length = Spec.totalCodewords (v + 1) ∧
+      Spec.blocksOf (v + 1) l cw = bs.map QR.Interleave.toBlock ∧
+      (Spec.blocksOf (v + 1) l cw).flatMap (·.data) = buf ∧
+      (∀ p ∈ bs, p.1 ≠ [] ∧ ecOfBlockSrc rsPolyFor polyMk polyMod p.1 (Spec.eccLen (v + 1) l) = .ok p.2 ∧
+        p.2.length = Spec.eccLen (v + 1) l) := by
+  simp only [C02_source_ecOfBlockSrc_eq, C02_source_createBytesSrc_eq] at hec ⊢
+  exact C02_block_structure v hv l buf hlen hbytes hec
+
+/-- the capstone chain at a concrete input: version 1-M (one block, 16 data + 10 EC codewords), the data codewords of the
+    ISO Annex I example "01234567": the translated `rs_blocks` + `create_bytes` return the published final codeword sequence -/
+example : (rsBlocksSrc 1 Spec.Level.M.indicator >>= fun blocks =>
+      createBytesSrc (ecOfBlockSrc rsPolyFor polyMk polyMod)
+        [0x10, 0x20, 0x0C, 0x56, 0x61, 0x80, 0xEC, 0x11, 0xEC, 0x11, 0xEC, 0x11, 0xEC, 0x11, 0xEC, 0x11] blocks) =
+    .ok [0x10, 0x20, 0x0C, 0x56, 0x61, 0x80, 0xEC, 0x11, 0xEC, 0x11, 0xEC, 0x11, 0xEC, 0x11, 0xEC, 0x11,
+         0xA5, 0x24, 0xD4, 0xC1, 0xED, 0x36, 0xC7, 0x87, 0x2C, 0x55] := by decide +kernel
+
+end Capstone
 
 /-- the Python functions this property's model mirrors have, in /repo's current working tree, exactly the normalised
     ASTs the model was written and validated against (fingerprints regenerated by T1 on every run) -/
